@@ -31,6 +31,8 @@ ASSUMPTIONS = [
 
 KEYS = st.one_of(
     st.sampled_from(['', 'k', 'K', 'k ', 'a/b', '\x00', 'ключ', '\U0001F600', 'x' * 300, '{"key": 1}', 'k\n']),
+    # canonically equivalent but DIFFERENT strings (composed / decomposed): two keys
+    st.sampled_from(['caf\u00e9', 'cafe\u0301', '\u00c5', 'A\u030a', '\u212b']),
     st.text(alphabet=st.characters(blacklist_categories=('Cs',)), max_size=8),
 )
 SUBNAMES = ['s', 't', 'a/b', '0a1b2', 'k', 'c/b', 'a/k', 's/t']
